@@ -649,6 +649,8 @@ class Engine:
         """in-place mutation of a container value living at lv (write-through to the place it was read from)"""
         if lv is None:
             lv = recv.origin if isinstance(recv, SVal) else None
+        if lv is not None and lv.kind == "var" and ("__stored__:" + str(lv.a)) in st.env:
+            raise OutsideSubset("in-place mutation of a local container after it was stored elsewhere (aliasing the value model cannot follow)")
         if lv is None:
             return     # temporary value: mutation is unobservable
         if isinstance(newval, SVal) and isinstance(recv, SVal) and recv.origin is not None and lv.kind == "var":
